@@ -187,7 +187,9 @@ def source_hash(file=None):
     deps, texts = _kani_deps()
     h = hashlib.sha1(_repo_hash().encode())
     for f in sorted(deps.get(file, texts.keys()) if file else texts.keys()):
-        h.update(f.encode()); h.update(texts[f].encode())
+        # registry tags (`// @sizes`, `// @props`, `// @jobs`, ...) decide which harness runs in which tier, never a verdict
+        body = "\n".join(l for l in texts[f].splitlines() if not re.match(r"\s*//\s*@\w+", l))
+        h.update(f.encode()); h.update(body.encode())
     return h.hexdigest()
 
 
